@@ -343,7 +343,14 @@ def run(F, R):
                         okk = True
             R.check("C18-R3", "system-app-key", okk, "target version looked up under get_system_app_id(): %s" % keyt[:80], "the target version is not looked up under AppSet::get_system_app_id(): key = %s" % keyt[:120], tgt[0]["loc"])
             val = tgt[0]["value"]
-            R.check("C18-R3", "target-version-value", val.startswith("unwrap_or_else(") and "get(" in val and "'UNKNOWN'" in val, val[:140], "target version value <- %s" % val[:160])
+            from .. import optnorm
+            tt_ = tgt[0]["t"]
+            alts_ = optnorm.value_alts(W, tv, tv.trace_op(tt_["args"][2])) if len(tt_.get("args", [])) > 2 else []
+            pays = [optnorm.canon(terms.render(tv, a_[1], W, {})) for a_ in alts_ if a_[0] == "payload"]
+            vals = [terms.render(tv, a_[1], W, {}) for a_ in alts_ if a_[0] == "value"]
+            # either the offered version of the system app (payload of the map entry found under the system app id) or the literal UNKNOWN
+            okv = len(pays) >= 1 and all(p_.startswith("get(") and p_.endswith("@OK") and "get_system_app_id(" in p_ for p_ in pays) and vals == ["'UNKNOWN'"]
+            R.check("C18-R3", "target-version-value", okv, "target version <- %s | %s" % ([p_[:60] for p_ in pays], vals), "target version value <- %s | %s (%s)" % ([p_[:100] for p_ in pays], vals, val[:100]))
 
     # ---------------------------------------------------------------- R4 report once, clear after
     R.rule("C18-R4", "the waited-for-reboot duration is reported only when a finish time is stored and the stored target version equals the running OS version; the flag is cleared and both keys removed+committed only on a successful report; the start instant is taken once")
